@@ -3,7 +3,7 @@
 // Contracts for package generator, checked by /verif/govc (comment-only; compiled only with -tags verif).
 package generator
 
-//@ prelude c13 c07 c01 c02
+//@ prelude c13 c07 c01 c02 c15
 
 // ---- text is data (C13) -------------------------------------------------------------------------------------
 
@@ -221,3 +221,12 @@ package generator
 
 //@ func GeneratePropertyArray(path path.PropertyPath, variable string, iriExpander *misc.IriExpander) RegoPathResult
 //@   requires [C07:array-holds-one-clause] nalts(path) <= 1
+
+// ---- prefixes (C15) ---------------------------------------------------------------------------------------------------
+
+//@ func IriExpanderFrom(profile profile.Profile) *misc.IriExpander
+//@   ensures [C15:defaults-overlaid-by-profile-prefixes] result != nil && (forall k string :: (has(profile.Prefixes, k) ==> deref(result).Context[k] == box(string, old(profile.Prefixes[k]))) && (!has(profile.Prefixes, k) ==> (has(deref(result).Context, k) == old(has(contexts.DefaultAMFContext, k)) && deref(result).Context[k] == old(contexts.DefaultAMFContext[k]))))
+//@   ensures [C15:fresh-context] ref(deref(result).Context) > old(alloc)
+//@   loop 1 /* for n, p := range profile.Prefixes */
+//@     invariant [C15] forall m map[string]any :: ref(m) <= old(alloc) ==> unchanged(m)
+//@     invariant [C15] forall k string :: (seen(k) ==> context[k] == box(string, old(profile.Prefixes[k]))) && (!seen(k) ==> (has(context, k) == old(has(contexts.DefaultAMFContext, k)) && context[k] == old(contexts.DefaultAMFContext[k])))
